@@ -305,4 +305,134 @@ func TestVerifC29(t *testing.T) {
 		}
 	}
 	rep.vfCompare("marshal", ops, impl, nil)
+	c29Batch(t, rep, vfNewRng(2902))
+	c29Concurrent(t, rep, vfNewRng(2903))
+}
+
+// c29Item is one request with the bytes its marshaler returned. The bytes are NOT copied:
+// they are exactly what the caller of Marshal / MarshalLoadRequest holds.
+type c29Item struct {
+	orig       pb.Message
+	typ        proto.Command_Type
+	sub        []byte
+	compressed bool
+}
+
+func c29MakeItem(r *vfRng, m *RequestMarshaler) *c29Item {
+	switch r.Intn(4) {
+	case 0:
+		lr := &proto.LoadRequest{Data: []byte(c29Text(r, 200+r.Intn(2000), r.Intn(2)))}
+		sub, err := MarshalLoadRequest(lr)
+		if err != nil {
+			panic(err)
+		}
+		return &c29Item{orig: pb.Clone(lr), typ: proto.Command_COMMAND_TYPE_LOAD, sub: sub}
+	default:
+		// compressible and above a threshold, so the gzip path is taken
+		req := &proto.Request{Transaction: r.Bool()}
+		n := 1 + r.Intn(3)
+		for i := 0; i < n; i++ {
+			req.Statements = append(req.Statements, &proto.Statement{Sql: c29Text(r, m.SizeThreshold+r.Intn(300), 0) + fmt.Sprintf("/*%d*/", r.U64())})
+		}
+		var rq Requester
+		typ := proto.Command_COMMAND_TYPE_EXECUTE
+		switch r.Intn(3) {
+		case 0:
+			rq = &proto.ExecuteRequest{Request: req, Timings: r.Bool()}
+		case 1:
+			rq = &proto.QueryRequest{Request: req, Level: c29Level(r)}
+			typ = proto.Command_COMMAND_TYPE_QUERY
+		default:
+			rq = &proto.ExecuteQueryRequest{Request: req, Freshness: int64(r.Intn(1000))}
+			typ = proto.Command_COMMAND_TYPE_EXECUTE_QUERY
+		}
+		orig := pb.Clone(rq)
+		b, compressed, err := m.Marshal(rq)
+		if err != nil {
+			panic(err)
+		}
+		return &c29Item{orig: orig, typ: typ, sub: b, compressed: compressed}
+	}
+}
+
+func c29CheckItem(it *c29Item) string {
+	entry, err := Marshal(&proto.Command{Type: it.typ, SubCommand: it.sub, Compressed: it.compressed})
+	if err != nil {
+		return "wrap: " + err.Error()
+	}
+	got, gotType, err := c29Decode(entry)
+	if err != nil {
+		return "decode: " + err.Error()
+	}
+	if gotType != it.typ || !pb.Equal(got, it.orig) {
+		return "decoded request differs from the one marshalled"
+	}
+	return ""
+}
+
+// c29Batch: marshal a whole batch first, holding every returned byte slice, and only then
+// wrap and decode each one. The result of Marshal is a value: later calls must not change it.
+func c29Batch(t *testing.T, rep *vfReport, r *vfRng) {
+	rounds := vfScale(40, 1500)
+	for round := 0; round < rounds; round++ {
+		m := NewRequestMarshaler()
+		m.SizeThreshold = 64 + r.Intn(200)
+		k := 2 + r.Intn(12)
+		items := make([]*c29Item, k)
+		for i := range items {
+			items[i] = c29MakeItem(r, m)
+		}
+		nComp := 0
+		for i, it := range items {
+			if it.compressed || it.typ == proto.Command_COMMAND_TYPE_LOAD {
+				nComp++
+			}
+			if msg := c29CheckItem(it); msg != "" {
+				rep.Fail("decoded-request-differs:results-held-while-marshalling-others",
+					fmt.Sprintf("batch of %d requests marshalled first, then decoded: item %d (%v, compressed=%v): %s", k, i, it.typ, it.compressed, msg),
+					map[string]interface{}{"batch_size": k, "item": i, "type": it.typ.String(), "size_threshold": m.SizeThreshold})
+			}
+		}
+		rep.Case(fmt.Sprintf("batch|%d|%d", round, k), nComp >= 2)
+		rep.Count("batches-marshalled-before-decoding")
+		rep.CountN("batch-items-gzipped", nComp)
+	}
+}
+
+// c29Concurrent: goroutines marshal and decode their own requests at the same time.
+func c29Concurrent(t *testing.T, rep *vfReport, r *vfRng) {
+	workers := 8
+	iters := vfScale(60, 1500)
+	type failure struct{ w, i int; msg string; typ string }
+	fails := make(chan failure, workers)
+	done := make(chan struct{})
+	for w := 0; w < workers; w++ {
+		wr := &vfRng{s: r.U64()}
+		go func(w int) {
+			defer func() { done <- struct{}{} }()
+			m := NewRequestMarshaler()
+			m.SizeThreshold = 64
+			for i := 0; i < iters; i++ {
+				it := c29MakeItem(wr, m)
+				if msg := c29CheckItem(it); msg != "" {
+					select {
+					case fails <- failure{w, i, msg, it.typ.String()}:
+					default:
+					}
+					return
+				}
+			}
+		}(w)
+	}
+	for w := 0; w < workers; w++ {
+		<-done
+	}
+	close(fails)
+	for f := range fails {
+		rep.Fail("decoded-request-differs:concurrent-marshal",
+			fmt.Sprintf("%d goroutines marshalling at once: worker %d iteration %d (%s): %s", workers, f.w, f.i, f.typ, f.msg),
+			map[string]interface{}{"workers": workers, "iterations": iters})
+	}
+	rep.Case(fmt.Sprintf("concurrent|%d|%d", workers, iters), true)
+	rep.CountN("concurrent-marshal-decode-round-trips", workers*iters)
 }
